@@ -7,9 +7,9 @@ Open Scope R_scope.
 
 (* ---------- pinball loss ---------- *)
 Lemma pinball_below y o tau : y < o -> quantile_score_kernel y o tau = tau * Rabs (y - o).
-Proof. intros H. unfold quantile_score_kernel. cbv zeta. destruct (Rlt_dec y o); [reflexivity|lra]. Qed.
+Proof. intros H. unfold quantile_score_kernel. cbv zeta. destruct (Rlt_dec y o); [ring|lra]. Qed.
 Lemma pinball_above y o tau : o <= y -> quantile_score_kernel y o tau = (1 - tau) * Rabs (y - o).
-Proof. intros H. unfold quantile_score_kernel. cbv zeta. destruct (Rlt_dec y o); [lra|reflexivity]. Qed.
+Proof. intros H. unfold quantile_score_kernel. cbv zeta. destruct (Rlt_dec y o); [lra|ring]. Qed.
 Lemma pinball_nonneg y o tau : 0 < tau < 1 -> 0 <= quantile_score_kernel y o tau.
 Proof. intros Ht. pose proof (Rabs_pos (y - o)) as Hab. destruct (Rlt_dec y o) as [H|H].
   - rewrite pinball_below by exact H. apply Rmult_le_pos; lra.
@@ -27,8 +27,8 @@ Proof. intros Ht. split.
 Lemma kernel_explicit c y tau :
   quantile_score_kernel c y tau = if Rlt_dec c y then tau * (y - c) else (1 - tau) * (c - y).
 Proof. unfold quantile_score_kernel. cbv zeta. destruct (Rlt_dec c y) as [H|H].
-  - rewrite Rabs_left by lra. ring_simplify. lra.
-  - rewrite Rabs_pos_eq by lra. reflexivity. Qed.
+  - rewrite Rabs_left by lra. ring.
+  - rewrite Rabs_pos_eq by lra. ring. Qed.
 
 (* sub-gradient inequalities of c |-> loss(c, y) at q *)
 Lemma subgrad_right tau q c y : 0 < tau < 1 -> q <= c ->
@@ -128,3 +128,341 @@ Proof. intros Hm Hne. unfold quantile_score_shape.
   destruct (m <=? 0)%Z eqn:E; [reflexivity|]. destruct (st mod m =? 0)%Z eqn:E2; cbn [negb]; [|reflexivity].
   destruct (sy =? st / m)%Z eqn:E3; [|reflexivity]. exfalso. apply Hne.
   apply Z.eqb_eq in E2, E3. subst sy. rewrite Z.mul_comm. symmetry. apply Z.div_exact; lia. Qed.
+
+(* ====================== extension: converse of quantile_minimises, NaN handling, vector of taus ====================== *)
+(* ---------- exact slope of the loss between neighbouring sample values ---------- *)
+(* no sample value lies in the open interval (c', c) *)
+Lemma kernel_left_exact tau c c' y : c' <= c -> (y < c -> y <= c') ->
+  quantile_score_kernel c' y tau - quantile_score_kernel c y tau = (c' - c) * ((if Rlt_dec y c then 1 else 0) - tau).
+Proof. intros Hc Hgap. rewrite !kernel_explicit.
+  destruct (Rlt_dec y c) as [H|H].
+  - specialize (Hgap H). destruct (Rlt_dec c' y), (Rlt_dec c y); try lra.
+  - destruct (Rlt_dec c' y), (Rlt_dec c y); lra. Qed.
+Lemma kernel_right_exact tau c c' y : c <= c' -> (c < y -> c' <= y) ->
+  quantile_score_kernel c' y tau - quantile_score_kernel c y tau = (c' - c) * ((if Rle_dec y c then 1 else 0) - tau).
+Proof. intros Hc Hgap. rewrite !kernel_explicit.
+  destruct (Rle_dec y c) as [H|H].
+  - destruct (Rlt_dec c' y), (Rlt_dec c y); try lra.
+  - assert (c' <= y) by (apply Hgap; lra). destruct (Rlt_dec c' y), (Rlt_dec c y); try lra. Qed.
+
+Lemma loss_left_exact tau c c' ys : c' <= c -> (forall y, In y ys -> y < c -> y <= c') ->
+  loss_sum tau c' ys - loss_sum tau c ys = (c' - c) * (cnt_lt c ys - tau * rlen ys).
+Proof. intros Hc. unfold cnt_lt, rlen, loss_sum. induction ys as [|y ys IH]; cbn [map rsum]; intros Hgap; [lra|].
+  pose proof (kernel_left_exact tau c c' y Hc (Hgap y (or_introl eq_refl))) as Hk.
+  assert (IH' := IH (fun z Hz => Hgap z (or_intror Hz))). lra. Qed.
+Lemma loss_right_exact tau c c' ys : c <= c' -> (forall y, In y ys -> c < y -> c' <= y) ->
+  loss_sum tau c' ys - loss_sum tau c ys = (c' - c) * (cnt_le c ys - tau * rlen ys).
+Proof. intros Hc. unfold cnt_le, rlen, loss_sum. induction ys as [|y ys IH]; cbn [map rsum]; intros Hgap; [lra|].
+  pose proof (kernel_right_exact tau c c' y Hc (Hgap y (or_introl eq_refl))) as Hk.
+  assert (IH' := IH (fun z Hz => Hgap z (or_intror Hz))). lra. Qed.
+
+(* ---------- nearest sample values below / above c ---------- *)
+Lemma cnt_lt_nonneg c ys : 0 <= cnt_lt c ys.
+Proof. unfold cnt_lt. induction ys as [|y ys IH]; cbn [map rsum]; [lra|]. destruct (Rlt_dec y c); lra. Qed.
+Lemma cnt_le_le_len c ys : cnt_le c ys <= rlen ys.
+Proof. unfold cnt_le, rlen. induction ys as [|y ys IH]; cbn [map rsum]; [lra|]. destruct (Rle_dec y c); lra. Qed.
+Lemma cnt_lt_le c ys : cnt_lt c ys <= cnt_le c ys.
+Proof. unfold cnt_lt, cnt_le. induction ys as [|y ys IH]; cbn [map rsum]; [lra|].
+  destruct (Rlt_dec y c), (Rle_dec y c); lra. Qed.
+
+Lemma nearest_below c ys : 0 < cnt_lt c ys ->
+  exists m, In m ys /\ m < c /\ forall y, In y ys -> y < c -> y <= m.
+Proof. unfold cnt_lt. induction ys as [|y ys IH]; cbn [map rsum]; [lra|]. intros Hpos.
+  fold (cnt_lt c ys) in *. destruct (Rlt_dec y c) as [Hy|Hy].
+  - destruct (Rlt_dec 0 (cnt_lt c ys)) as [Hp|Hp].
+    + destruct (IH Hp) as (m & Hin & Hm & Hmax). destruct (Rle_dec y m) as [Hym|Hym].
+      * exists m. split; [right; exact Hin|]. split; [exact Hm|]. intros z [->|Hz] Hzc; [exact Hym|apply Hmax; assumption].
+      * exists y. split; [left; reflexivity|]. split; [exact Hy|]. intros z [->|Hz] Hzc; [lra|].
+        specialize (Hmax z Hz Hzc). lra.
+    + exists y. split; [left; reflexivity|]. split; [exact Hy|]. intros z [->|Hz] Hzc; [lra|]. exfalso.
+      apply Hp. clear - Hz Hzc. unfold cnt_lt. induction ys as [|w ys IH]; [destruct Hz|]. cbn [map rsum].
+      pose proof (cnt_lt_nonneg c ys) as Hn. unfold cnt_lt in Hn. destruct Hz as [->|Hz].
+      * destruct (Rlt_dec z c); lra.
+      * specialize (IH Hz). destruct (Rlt_dec w c); lra.
+  - destruct (IH ltac:(lra)) as (m & Hin & Hm & Hmax). exists m. split; [right; exact Hin|]. split; [exact Hm|].
+    intros z [->|Hz] Hzc; [lra|apply Hmax; assumption]. Qed.
+
+Lemma nearest_above c ys : cnt_le c ys < rlen ys ->
+  exists m, In m ys /\ c < m /\ forall y, In y ys -> c < y -> m <= y.
+Proof. unfold cnt_le, rlen. induction ys as [|y ys IH]; cbn [map rsum]; [lra|]. intros Hlt.
+  fold (cnt_le c ys) in *. fold (rlen ys) in *. destruct (Rle_dec y c) as [Hy|Hy].
+  - destruct (IH ltac:(lra)) as (m & Hin & Hm & Hmin). exists m. split; [right; exact Hin|]. split; [exact Hm|].
+    intros z [->|Hz] Hzc; [lra|apply Hmin; assumption].
+  - destruct (Rlt_dec (cnt_le c ys) (rlen ys)) as [Hp|Hp].
+    + destruct (IH Hp) as (m & Hin & Hm & Hmin). destruct (Rle_dec m y) as [Hym|Hym].
+      * exists m. split; [right; exact Hin|]. split; [exact Hm|]. intros z [->|Hz] Hzc; [exact Hym|apply Hmin; assumption].
+      * exists y. split; [left; reflexivity|]. split; [lra|]. intros z [->|Hz] Hzc; [lra|].
+        specialize (Hmin z Hz Hzc). lra.
+    + exists y. split; [left; reflexivity|]. split; [lra|]. intros z [->|Hz] Hzc; [lra|]. exfalso.
+      apply Hp. clear - Hz Hzc. unfold cnt_le, rlen. induction ys as [|w ys IH]; [destruct Hz|]. cbn [map rsum].
+      pose proof (cnt_le_le_len c ys) as Hn. unfold cnt_le, rlen in Hn. destruct Hz as [->|Hz].
+      * destruct (Rle_dec z c); lra.
+      * specialize (IH Hz). destruct (Rle_dec w c); lra. Qed.
+
+(* ---------- the converse: a minimiser is a tau-quantile ---------- *)
+(* it is enough that c is not beaten by any SAMPLE POINT *)
+Lemma minimiser_is_quantile_sum tau c ys : 0 < tau < 1 -> ys <> [] ->
+  (forall y, In y ys -> loss_sum tau c ys <= loss_sum tau y ys) -> is_quantile tau c ys.
+Proof. intros Ht Hne Hmin. pose proof (rlen_pos ys Hne) as Hn. unfold is_quantile. split.
+  - destruct (Rle_dec (cnt_lt c ys) (tau * rlen ys)) as [H|H]; [exact H|exfalso].
+    assert (Hpos : 0 < cnt_lt c ys) by (assert (0 < tau * rlen ys) by (apply Rmult_lt_0_compat; lra); lra).
+    destruct (nearest_below c ys Hpos) as (m & Hin & Hm & Hmax).
+    pose proof (loss_left_exact tau c m ys ltac:(lra) Hmax) as E. specialize (Hmin m Hin).
+    assert (0 < (c - m) * (cnt_lt c ys - tau * rlen ys)) by (apply Rmult_lt_0_compat; lra). lra.
+  - destruct (Rle_dec (tau * rlen ys) (cnt_le c ys)) as [H|H]; [exact H|exfalso].
+    assert (Hlt : cnt_le c ys < rlen ys) by (assert (tau * rlen ys < 1 * rlen ys) by (apply Rmult_lt_compat_r; lra); lra).
+    destruct (nearest_above c ys Hlt) as (m & Hin & Hm & Hmax).
+    pose proof (loss_right_exact tau c m ys ltac:(lra) Hmax) as E. specialize (Hmin m Hin).
+    assert (0 < (m - c) * (tau * rlen ys - cnt_le c ys)) by (apply Rmult_lt_0_compat; lra). lra. Qed.
+
+Lemma mean_loss_le_iff tau a b ys : ys <> [] -> (mean_loss tau a ys <= mean_loss tau b ys <-> loss_sum tau a ys <= loss_sum tau b ys).
+Proof. intros Hne. pose proof (rlen_pos ys Hne) as Hn. unfold mean_loss. split; intros H.
+  - apply (Rmult_le_reg_r (/ rlen ys)); [apply Rinv_0_lt_compat; exact Hn|exact H].
+  - apply Rmult_le_compat_r; [left; apply Rinv_0_lt_compat; exact Hn|exact H]. Qed.
+
+Lemma minimiser_over_sample_is_quantile_mean tau c ys : 0 < tau < 1 -> ys <> [] ->
+  (forall y, In y ys -> mean_loss tau c ys <= mean_loss tau y ys) -> is_quantile tau c ys.
+Proof. intros Ht Hne Hmin. apply minimiser_is_quantile_sum; [exact Ht|exact Hne|].
+  intros y Hy. apply (mean_loss_le_iff tau c y ys Hne), Hmin, Hy. Qed.
+
+Lemma minimiser_is_quantile_mean tau c ys : 0 < tau < 1 -> ys <> [] ->
+  (forall c', mean_loss tau c ys <= mean_loss tau c' ys) -> is_quantile tau c ys.
+Proof. intros Ht Hne Hmin. apply minimiser_over_sample_is_quantile_mean; [exact Ht|exact Hne|]. intros y _. apply Hmin. Qed.
+
+Lemma quantile_iff_minimiser_mean tau c ys : 0 < tau < 1 -> ys <> [] ->
+  (is_quantile tau c ys <-> forall c', mean_loss tau c ys <= mean_loss tau c' ys).
+Proof. intros Ht Hne. split.
+  - intros Hq c'. apply quantile_minimises_mean; assumption.
+  - apply minimiser_is_quantile_mean; assumption. Qed.
+
+(* local version: not beaten by c +- any small delta *)
+Lemma local_minimiser_is_quantile_mean tau c ys eps : 0 < tau < 1 -> ys <> [] -> 0 < eps ->
+  (forall c', Rabs (c' - c) < eps -> mean_loss tau c ys <= mean_loss tau c' ys) -> is_quantile tau c ys.
+Proof. intros Ht Hne Heps Hmin. pose proof (rlen_pos ys Hne) as Hn. unfold is_quantile. split.
+  - destruct (Rle_dec (cnt_lt c ys) (tau * rlen ys)) as [H|H]; [exact H|exfalso].
+    assert (Hpos : 0 < cnt_lt c ys) by (assert (0 < tau * rlen ys) by (apply Rmult_lt_0_compat; lra); lra).
+    destruct (nearest_below c ys Hpos) as (m & Hin & Hm & Hmax).
+    set (c' := Rmax m (c - eps / 2)).
+    assert (Hc1 : m <= c') by apply Rmax_l. assert (Hc2 : c - eps / 2 <= c') by apply Rmax_r.
+    assert (Hc3 : c' < c) by (unfold c'; apply Rmax_lub_lt; lra).
+    assert (Hgap : forall y, In y ys -> y < c -> y <= c') by (intros y Hy Hyc; specialize (Hmax y Hy Hyc); lra).
+    pose proof (loss_left_exact tau c c' ys ltac:(lra) Hgap) as E.
+    assert (Hab : Rabs (c' - c) < eps) by (rewrite Rabs_left by lra; lra).
+    pose proof (proj1 (mean_loss_le_iff tau c c' ys Hne) (Hmin c' Hab)) as Hle.
+    assert (0 < (c - c') * (cnt_lt c ys - tau * rlen ys)) by (apply Rmult_lt_0_compat; lra). lra.
+  - destruct (Rle_dec (tau * rlen ys) (cnt_le c ys)) as [H|H]; [exact H|exfalso].
+    assert (Hlt : cnt_le c ys < rlen ys) by (assert (tau * rlen ys < 1 * rlen ys) by (apply Rmult_lt_compat_r; lra); lra).
+    destruct (nearest_above c ys Hlt) as (m & Hin & Hm & Hmax).
+    set (c' := Rmin m (c + eps / 2)).
+    assert (Hc1 : c' <= m) by apply Rmin_l. assert (Hc2 : c' <= c + eps / 2) by apply Rmin_r.
+    assert (Hc3 : c < c') by (unfold c'; apply Rmin_glb_lt; lra).
+    assert (Hgap : forall y, In y ys -> c < y -> c' <= y) by (intros y Hy Hyc; specialize (Hmax y Hy Hyc); lra).
+    pose proof (loss_right_exact tau c c' ys ltac:(lra) Hgap) as E.
+    assert (Hab : Rabs (c' - c) < eps) by (rewrite Rabs_pos_eq by lra; lra).
+    pose proof (proj1 (mean_loss_le_iff tau c c' ys Hne) (Hmin c' Hab)) as Hle.
+    assert (0 < (c' - c) * (tau * rlen ys - cnt_le c ys)) by (apply Rmult_lt_0_compat; lra). lra. Qed.
+
+(* ---------- a tau-quantile exists among the sample points: the search over sample points is exact ---------- *)
+Lemma argmin_exists (f : R -> R) (ys : list R) : ys <> [] -> exists q, In q ys /\ forall y, In y ys -> f q <= f y.
+Proof. induction ys as [|a ys IH]; [congruence|intros _]. destruct ys as [|b ys].
+  - exists a. split; [left; reflexivity|]. intros y [->|[]]. lra.
+  - destruct (IH ltac:(discriminate)) as (q & Hin & Hq). destruct (Rle_dec (f a) (f q)) as [H|H].
+    + exists a. split; [left; reflexivity|]. intros y [->|Hy]; [lra|]. specialize (Hq y Hy). lra.
+    + exists q. split; [right; exact Hin|]. intros y [->|Hy]; [lra|]. apply Hq, Hy. Qed.
+
+Lemma sample_quantile_exists_l tau ys : 0 < tau < 1 -> ys <> [] -> exists q, In q ys /\ is_quantile tau q ys.
+Proof. intros Ht Hne. destruct (argmin_exists (fun c => loss_sum tau c ys) ys Hne) as (q & Hin & Hq).
+  exists q. split; [exact Hin|]. apply minimiser_is_quantile_sum; assumption. Qed.
+
+(* the minimum over ALL constants is attained at a sample point *)
+Lemma search_over_sample_points_exact_l tau ys : 0 < tau < 1 -> ys <> [] ->
+  exists q, In q ys /\ is_quantile tau q ys /\ forall c, mean_loss tau q ys <= mean_loss tau c ys.
+Proof. intros Ht Hne. destruct (sample_quantile_exists_l tau ys Ht Hne) as (q & Hin & Hq).
+  exists q. split; [exact Hin|]. split; [exact Hq|]. intros c. apply quantile_minimises_mean; assumption. Qed.
+
+(* ---------- NaN handling ---------- *)
+Lemma somes_map_Some l : somes (map Some l) = l.
+Proof. induction l as [|x l IH]; cbn [map somes]; [reflexivity|rewrite IH; reflexivity]. Qed.
+Lemma all_some_map_Some l : all_some (map Some l) = Some l.
+Proof. induction l as [|x l IH]; cbn [map all_some]; [reflexivity|rewrite IH; reflexivity]. Qed.
+
+Lemma nanmean_nan_free l : l <> [] -> nanmean (map Some l) = Some (rmean l) /\ npmean (map Some l) = Some (rmean l).
+Proof. intros Hne. unfold nanmean, npmean. rewrite somes_map_Some, all_some_map_Some.
+  destruct l; [congruence|split; reflexivity]. Qed.
+Lemma nanmean_drops_nan l : nanmean l = nanmean (map Some (somes l)).
+Proof. unfold nanmean. rewrite somes_map_Some. reflexivity. Qed.
+Lemma nanmean_perm_somes l l' : Permutation (somes l) (somes l') -> nanmean l = nanmean l'.
+Proof. intros H. unfold nanmean. destruct (somes l) as [|x v] eqn:E1, (somes l') as [|x' v'] eqn:E2.
+  - reflexivity.
+  - apply Permutation_nil in H. discriminate.
+  - apply Permutation_sym, Permutation_nil in H. discriminate.
+  - f_equal. apply rmean_perm, H. Qed.
+
+Lemma somes_scores tau c ys :
+  somes (map (fun y => quantile_score_fl (Some c) y (Some tau)) ys) = map (fun y => quantile_score_kernel c y tau) (somes ys).
+Proof. induction ys as [|[y|] ys IH]; cbn [map somes quantile_score_fl lift3] in *; [reflexivity|rewrite IH; reflexivity|exact IH]. Qed.
+
+Lemma rmean_scores tau c ys : rmean (map (fun y => quantile_score_kernel c y tau) ys) = mean_loss tau c ys.
+Proof. unfold rmean, mean_loss, loss_sum, rlen. rewrite map_map. reflexivity. Qed.
+
+(* the value on ANY sample: NaN observations are dropped; all-NaN (or empty) gives NaN, never an exception *)
+Lemma mqs_fl_value tau c ys :
+  mqs_fl (Some tau) (Some c) ys = match somes ys with [] => None | v => Some (mean_loss tau c v) end.
+Proof. unfold mqs_fl, nanmean. rewrite somes_scores. destruct (somes ys) as [|y v]; [reflexivity|].
+  cbn [map]. f_equal. rewrite <- rmean_scores. reflexivity. Qed.
+Lemma mqs_fl_nan_free tau c ys : ys <> [] -> mqs_fl (Some tau) (Some c) (map Some ys) = Some (mean_loss tau c ys).
+Proof. intros Hne. rewrite mqs_fl_value, somes_map_Some. destruct ys; [congruence|reflexivity]. Qed.
+Lemma mqs_fl_nan_estimate tau ys : mqs_fl tau None ys = None /\ mqs_fl None tau ys = None.
+Proof. unfold mqs_fl, nanmean. split.
+  - replace (somes (map (fun y => quantile_score_fl None y tau) ys)) with (@nil R); [reflexivity|].
+    induction ys as [|y ys IH]; cbn [map somes quantile_score_fl lift3]; [reflexivity|exact IH].
+  - replace (somes (map (fun y => quantile_score_fl tau y None) ys)) with (@nil R); [reflexivity|].
+    induction ys as [|y ys IH]; cbn [map somes quantile_score_fl lift3]; [reflexivity|].
+    destruct tau, y; exact IH. Qed.
+
+(* ---------- the score matrix ---------- *)
+Lemma map2_length {A B C} (f : A -> B -> C) l m : length (map2 f l m) = Nat.min (length l) (length m).
+Proof. revert m. induction l as [|a l IH]; intros [|b m]; cbn [map2 length Nat.min]; try reflexivity. rewrite IH. reflexivity. Qed.
+Lemma map2_nth {A B C} (f : A -> B -> C) l m i da db dc : (i < length l)%nat -> (i < length m)%nat ->
+  nth i (map2 f l m) dc = f (nth i l da) (nth i m db).
+Proof. revert m i. induction l as [|a l IH]; intros [|b m] i Hl Hm; cbn [length] in *; try lia.
+  destruct i as [|i]; cbn [map2 nth]; [reflexivity|]. apply IH; lia. Qed.
+
+Lemma score_shape rows ys taus : rect (length ys) (length taus) rows ->
+  rect (length ys) (length taus) (quantile_score_rows rows ys taus).
+Proof. intros [Hn Hk]. unfold rect, quantile_score_rows. split.
+  - rewrite map2_length, Hn. apply Nat.min_id.
+  - revert ys Hn. induction Hk as [|r rows Hr Hk IH]; intros [|y ys] Hn; cbn [map2]; try constructor.
+    + unfold score_row. rewrite map2_length, Hr. apply Nat.min_id.
+    + apply IH. cbn [length] in Hn. lia. Qed.
+
+Lemma score_entry rows ys taus i j : rect (length ys) (length taus) rows -> (i < length ys)%nat -> (j < length taus)%nat ->
+  nth j (nth i (quantile_score_rows rows ys taus) []) 0
+  = quantile_score_kernel (nth j (nth i rows []) 0) (nth i ys 0) (nth j taus 0).
+Proof. intros [Hn Hk] Hi Hj. unfold quantile_score_rows.
+  rewrite (map2_nth (score_row taus) rows ys i [] 0 []) by lia. unfold score_row.
+  assert (Hr : length (nth i rows []) = length taus).
+  { rewrite Forall_forall in Hk. apply Hk, nth_In. lia. }
+  rewrite (map2_nth _ (nth i rows []) taus j 0 0 0) by lia. reflexivity. Qed.
+
+Lemma col_length j M : length (col j M) = length M.
+Proof. unfold col. apply map_length. Qed.
+Lemma col_nth j M i : nth i (col j M) 0 = nth j (nth i M []) 0.
+Proof. unfold col. revert i. induction M as [|r M IH]; intros [|i]; cbn [map nth]; try (destruct j; reflexivity); try reflexivity.
+  apply IH. Qed.
+
+Lemma list_ext_nth (l l' : list R) : length l = length l' -> (forall i, (i < length l)%nat -> nth i l 0 = nth i l' 0) -> l = l'.
+Proof. revert l'. induction l as [|a l IH]; intros [|b l'] Hlen Hnth; cbn [length] in *; try lia; [reflexivity|].
+  f_equal; [exact (Hnth 0%nat ltac:(lia))|]. apply IH; [lia|]. intros i Hi. exact (Hnth (S i) ltac:(lia)). Qed.
+
+(* column j of the score matrix = the pinball loss of column j of the estimates for the fraction taus[j] *)
+Lemma score_column rows ys taus j : rect (length ys) (length taus) rows -> (j < length taus)%nat ->
+  col j (quantile_score_rows rows ys taus) = map2 (fun e y => quantile_score_kernel e y (nth j taus 0)) (col j rows) ys.
+Proof. intros Hrect Hj. pose proof (score_shape rows ys taus Hrect) as [Hn' _]. destruct Hrect as [Hn Hk].
+  apply list_ext_nth.
+  - rewrite col_length, map2_length, col_length, Hn', Hn. symmetry. apply Nat.min_id.
+  - intros i Hi. rewrite col_length, Hn' in Hi. rewrite col_nth.
+    rewrite score_entry by (try split; assumption).
+    rewrite (map2_nth _ (col j rows) ys i 0 0 0) by (rewrite ?col_length; lia). rewrite col_nth. reflexivity. Qed.
+
+Lemma map2_const_l {A B C} (f : A -> B -> C) a (m : list B) : map2 f (repeat a (length m)) m = map (f a) m.
+Proof. induction m as [|b m IH]; cbn [length repeat map2 map]; [reflexivity|rewrite IH; reflexivity]. Qed.
+Lemma col_repeat j (cs : list R) n : col j (repeat cs n) = repeat (nth j cs 0) n.
+Proof. unfold col. induction n as [|n IH]; cbn [repeat map]; [reflexivity|rewrite IH; reflexivity]. Qed.
+
+Lemma nth_map_seq (f : nat -> R) a n j : (j < n)%nat -> nth j (map f (seq a n)) 0 = f (a + j)%nat.
+Proof. revert a j. induction n as [|n IH]; intros a j Hj; [lia|]. cbn [seq map]. destruct j as [|j]; cbn [nth].
+  - f_equal. lia.
+  - rewrite IH by lia. f_equal. lia. Qed.
+
+(* constant estimates cs (one constant per fraction): entry j of mean_quantile_score is the mean loss of cs[j] for taus[j] *)
+Lemma mqs_rows_const cs ys taus j : length cs = length taus -> (j < length taus)%nat ->
+  nth j (mqs_rows (repeat cs (length ys)) ys taus) 0 = mean_loss (nth j taus 0) (nth j cs 0) ys.
+Proof. intros Hlen Hj. unfold mqs_rows.
+  rewrite nth_map_seq by exact Hj. cbn [Nat.add].
+  rewrite score_column; [|split; [apply repeat_length|apply Forall_forall; intros r Hr; apply repeat_spec in Hr; subst r; exact Hlen]|exact Hj].
+  rewrite col_repeat, map2_const_l. apply rmean_scores. Qed.
+Lemma mqs_rows_length rows ys taus : length (mqs_rows rows ys taus) = length taus.
+Proof. unfold mqs_rows. rewrite map_length, seq_length. reflexivity. Qed.
+
+(* ---------- reshape(-1, m) of flat data ---------- *)
+Lemma firstn_nth_lt j m (l : list R) : (j < m)%nat -> nth j (firstn m l) 0 = nth j l 0.
+Proof. revert j l. induction m as [|m IHm]; intros j l Hj; [lia|]. destruct l as [|b l]; [destruct j; reflexivity|].
+  destruct j as [|j]; cbn [firstn nth]; [reflexivity|]. apply IHm. lia. Qed.
+Lemma skipn_nth j m (l : list R) : nth j (skipn m l) 0 = nth (m + j) l 0.
+Proof. revert l. induction m as [|m IHm]; intros l; [reflexivity|]. destruct l as [|b l]; [destruct j; reflexivity|].
+  cbn [skipn Nat.add nth]. apply IHm. Qed.
+Lemma chunks_nth fuel m l i j : (0 < m)%nat -> (length l <= fuel)%nat -> (i * m + j < length l)%nat -> (j < m)%nat ->
+  nth j (nth i (chunks fuel m l) []) 0 = nth (i * m + j) l 0.
+Proof. intros Hm. revert l i. induction fuel as [|f IH]; intros l i Hf Hij Hj; [lia|].
+  cbn [chunks]. destruct l as [|a l]; [cbn [length] in Hij; lia|]. destruct i as [|i].
+  - cbn [Nat.mul Nat.add]. change (nth 0 (firstn m (a :: l) :: chunks f m (skipn m (a :: l))) []) with (firstn m (a :: l)).
+    apply firstn_nth_lt. exact Hj.
+  - replace (S i * m + j)%nat with (m + (i * m + j))%nat by (cbn [Nat.mul]; lia). rewrite <- skipn_nth.
+    cbn [Nat.mul] in Hij. cbn [nth]. apply IH.
+    + rewrite skipn_length. cbn [length] in *. lia.
+    + rewrite skipn_length. lia.
+    + exact Hj. Qed.
+
+Lemma chunks_shape fuel m n l : (0 < m)%nat -> (length l <= fuel)%nat -> length l = (n * m)%nat -> rect n m (chunks fuel m l).
+Proof. intros Hm. revert l n. induction fuel as [|f IH]; intros l n Hf Hlen.
+  - assert (n = 0)%nat by nia. subst n. split; [reflexivity|constructor].
+  - cbn [chunks]. destruct l as [|a l].
+    + assert (n = 0)%nat by (cbn [length] in Hlen; nia). subst n. split; [reflexivity|constructor].
+    + destruct n as [|n]; [cbn [length] in Hlen; lia|].
+      destruct (IH (skipn m (a :: l)) n) as [H1 H2].
+      * rewrite skipn_length. cbn [length] in *. lia.
+      * rewrite skipn_length, Hlen. lia.
+      * split; [cbn [length]; rewrite H1; reflexivity|]. constructor; [|exact H2].
+        rewrite firstn_length, Hlen. lia. Qed.
+
+Lemma shape_some_inv st sy m n : quantile_score_shape st sy m = Some n -> (0 < m /\ st = sy * m /\ n = sy)%Z.
+Proof. unfold quantile_score_shape. destruct (m <=? 0)%Z eqn:E1; [discriminate|].
+  destruct (st mod m =? 0)%Z eqn:E2; cbn [negb]; [|discriminate]. destruct (sy =? st / m)%Z eqn:E3; [|discriminate].
+  intros [= <-]. apply Z.eqb_eq in E2, E3. apply Z.leb_gt in E1. split; [exact E1|]. split; [|symmetry; exact E3].
+  subst sy. rewrite Z.mul_comm. apply Z.div_exact; lia. Qed.
+
+Lemma shape_accepts_consistent0 n m : (0 <= n)%Z -> (0 < m)%Z -> quantile_score_shape (n * m) n m = Some n.
+Proof. intros Hn Hm. unfold quantile_score_shape.
+  destruct (m <=? 0)%Z eqn:E; [lia|]. rewrite Z.mod_mul by lia. cbn [negb Z.eqb].
+  rewrite Z.div_mul by lia. rewrite Z.eqb_refl. reflexivity. Qed.
+
+(* flat data: accepted exactly when len(y_tau) = len(y_test) * len(taus) (and there is a fraction); entry (i, j) is the
+   pinball loss of y_tau.flat[i * k + j] against y_test.flat[i] for taus[j] *)
+Lemma quantile_score_flat_spec flat ys taus :
+  match quantile_score_flat flat ys taus with
+  | Some M => taus <> [] /\ length flat = (length ys * length taus)%nat /\ rect (length ys) (length taus) M /\
+      forall i j, (i < length ys)%nat -> (j < length taus)%nat ->
+        nth j (nth i M []) 0 = quantile_score_kernel (nth (i * length taus + j) flat 0) (nth i ys 0) (nth j taus 0)
+  | None => taus = [] \/ length flat <> (length ys * length taus)%nat
+  end.
+Proof. unfold quantile_score_flat.
+  destruct (quantile_score_shape (Z.of_nat (length flat)) (Z.of_nat (length ys)) (Z.of_nat (length taus))) as [n|] eqn:E.
+  - apply shape_some_inv in E. destruct E as (Hm & Hst & _).
+    assert (Hm' : (0 < length taus)%nat) by lia. assert (Hlen : length flat = (length ys * length taus)%nat) by nia.
+    pose proof (chunks_shape (length flat) (length taus) (length ys) flat Hm' (le_n _) Hlen) as Hrect.
+    split; [destruct taus; [cbn [length] in Hm'; lia|discriminate]|]. split; [exact Hlen|]. split.
+    + apply score_shape. exact Hrect.
+    + intros i j Hi Hj. rewrite score_entry by assumption. unfold reshape_rows.
+      rewrite chunks_nth; [reflexivity|exact Hm'|apply le_n| |exact Hj]. rewrite Hlen. nia.
+  - destruct taus as [|t taus]; [left; reflexivity|right]. intros Hlen. rewrite Hlen, Nat2Z.inj_mul in E.
+    rewrite shape_accepts_consistent0 in E; [discriminate|lia|cbn [length]; lia]. Qed.
+
+(* mape / bias on NaN-free data: nanmean resp. mean of the kernel = the real-valued model *)
+Lemma scores_fl_nan_free s : s <> [] -> mape_fl (nan_free s) = Some (mape s) /\ bias_fl (nan_free s) = Some (bias s).
+Proof. intros Hne. unfold mape_fl, bias_fl, nan_free, mape, bias. rewrite !map_map.
+  assert (E1 : map (fun x : R * R => let '(p, t) := let '(p, t) := x in (Some p, Some t) in lift2 mape_kernel p t) s
+             = map Some (map (fun '(p, t) => mape_kernel p t) s)).
+  { rewrite map_map. apply map_ext. intros [p t]. reflexivity. }
+  assert (E2 : map (fun x : R * R => let '(p, t) := let '(p, t) := x in (Some p, Some t) in lift2 bias_kernel p t) s
+             = map Some (map (fun '(p, t) => bias_kernel p t) s)).
+  { rewrite map_map. apply map_ext. intros [p t]. reflexivity. }
+  rewrite E1, E2. split.
+  - apply nanmean_nan_free. destruct s; [congruence|discriminate].
+  - apply nanmean_nan_free. destruct s; [congruence|discriminate]. Qed.
+
+(* a vector of quantiles (one per fraction) minimises every entry of mean_quantile_score over vectors of constants *)
+Lemma vector_quantiles_minimise_l qs cs ys taus j : ys <> [] -> length qs = length taus -> length cs = length taus ->
+  (j < length taus)%nat -> 0 < nth j taus 0 < 1 -> is_quantile (nth j taus 0) (nth j qs 0) ys ->
+  nth j (mqs_rows (repeat qs (length ys)) ys taus) 0 <= nth j (mqs_rows (repeat cs (length ys)) ys taus) 0.
+Proof. intros Hne Hq Hc Hj Ht Hquant. rewrite !mqs_rows_const by assumption. apply quantile_minimises_mean; assumption. Qed.
